@@ -95,7 +95,7 @@ def progress_rule(model: Model, run: Run) -> None:
         if loops:
             targets.insert(len(targets) - 1, fq)
             n_rd += len(loops)
-    run.floor("reader loops in the decoders", n_rd, 10)
+    run.floor("reader loops in the decoders", n_rd, 5)
     n = 0
     for q in targets:
         fi = model.functions.get(q)
